@@ -660,14 +660,22 @@ pub fn run_case(rt: &tokio::runtime::Runtime, line: &str) -> String {
                     k += 1;
                     let hh = h.clone();
                     OUTSTANDING.fetch_add(1, Ordering::SeqCst);
+                    let counted = Arc::new(std::sync::atomic::AtomicBool::new(true));
+                    let counted2 = counted.clone();
                     tokio::spawn(async move {
                         let _ = send_cmd(&hh, vec![b"GET".to_vec(), key]).await;
-                        OUTSTANDING.fetch_sub(1, Ordering::SeqCst);
+                        if counted2.swap(false, Ordering::SeqCst) {
+                            OUTSTANDING.fetch_sub(1, Ordering::SeqCst);
+                        }
                     });
                     while ENQUEUED.load(Ordering::SeqCst) == e0 && HANDED_OFF.load(Ordering::SeqCst) == h0 && t.elapsed() < stuck_limit() {
                         tokio::time::sleep(Duration::from_millis(1)).await;
                     }
                     let was_parked = ENQUEUED.load(Ordering::SeqCst) != e0;
+                    if !was_parked && want_blocked && counted.swap(false, Ordering::SeqCst) {
+                        // handed to the node, where it waits behind the plug like the plug itself: executing, not in flight inside the proxy
+                        OUTSTANDING.fetch_sub(1, Ordering::SeqCst);
+                    }
                     if was_parked == want_blocked {
                         break;
                     }
